@@ -69,6 +69,27 @@ PROPS = {
              'case_scale': {'B_SE3_SO2_R3_SE2_SE23_r': 0.2, 'B_SGal3_SO3_r': 0.3, 'SGal3r': 0.5, 'SE_2_3r': 0.5}},
         ],
     },
+    'C09': {
+        'rule': 'every operation with optional outputs is evaluated under ALL subsets of its outputs (enumerated), with outputs bound to blocks at generated offsets of larger pre-filled matrices, re-evaluated after generated unrelated library activity, and in aliased form; non-trivial: X != identity and t != 0',
+        'assumptions': ['bit-identity is demanded only between evaluations of the same call on the same operand kind in one process (harness built with -ffp-contract=off)',
+                        'the first-use-order part (process-level) is the dedicated stage "firstuse"'],
+        'stages': [
+            {'src': 'C09.cpp', 'configs': D_GROUPS + ['SE3f', 'SGal3f'] + BUNDLES,
+             'cases': {'quick': 4000, 'thorough': 150000}, 'shards': {'quick': 1, 'thorough': 2},
+             'case_scale': {'B_SGal3_SE2_SE23_SO3_R1_d': 0.3}},
+            {'kind': 'custom', 'name': 'firstuse', 'module': 'c09', 'fn': 'run', 'replay_fn': 'replay', 'launches': {'quick': 16, 'thorough': 300}},
+        ],
+    },
+    'C11': {
+        'rule': 'bundle layouts covering every group first/middle/last, repeated and single, differing DoF/RepSize/Dim/matrix sizes; per-element inputs of 1.3; non-trivial: >= 2 elements with different DoF and input non-identity in every element',
+        'assumptions': ['offsets are recomputed by the harness as prefix sums of the documented per-group sizes (engine/vf_ref.cpp Spec), not read from manif traits',
+                        'stand-alone element results are manif results themselves (differential within the library); their correctness is the subject of C01-C06',
+                        'equality within 8u per coefficient (bit-identity recorded as a statistic), off-diagonal entries exactly +0.0 with NaN-prefilled outputs'],
+        'stages': [
+            {'src': 'C11.cpp', 'configs': {'quick': ALL_BUNDLES + ['B_SE3_SO2_R3_f'], 'thorough': ALL_BUNDLES + ['B_SE3_SO2_R3_f', 'B_7elems_d']},
+             'cases': {'quick': 4000, 'thorough': 150000}, 'shards': {'quick': 1, 'thorough': 2}},
+        ],
+    },
     'C06': {
         'rule': 'tangent (theta up to pi-1e-6, strata of 1.3) x two elements x second tangent; non-trivial: theta != 0 and a linear component >= 1e-3',
         'assumptions': ASSUME_ORACLE,
